@@ -121,6 +121,7 @@ struct SC
 struct RunNB
 {
   int run_nb(const SC& sc, int arg) { long b = sc.body; return run_script(b, arg); }
+  int run_nb_c(const SC& sc, int arg) const { long b = sc.body; return run_script(b, arg); }
 };
 struct TrA : public RunNB, public sigc::trackable
 {
@@ -418,6 +419,12 @@ static SlotT* make_functor_slot(char shape, long body, const std::vector<long>& 
   {
     with_tr(*ts[0], [&](auto& o) {
       out = mk<SlotT>(sigc::bind<0>(sigc::mem_fun(o, &RunNB::run_nb), SC(body)));
+    });
+  }
+  else if (shape == 'k' && ts.size() == 1)
+  {
+    with_tr(*ts[0], [&](auto& o) {
+      out = mk<SlotT>(sigc::bind<0>(sigc::mem_fun(o, &RunNB::run_nb_c), SC(body)));
     });
   }
   else if (shape == 'b' && ts.size() == 1)
@@ -755,7 +762,7 @@ static void exec_op(const Op& o)
     for (auto& kv : g_tr->live) if (live_tr(kv.first)) regs.push_back({kv.first, probe_regs(kv.second.base())});
     for (auto& kv : g_sg->live) if (kv.second->tr()) regs.push_back({1000 + kv.first, probe_regs(*kv.second->tr())});
     std::sort(regs.begin(), regs.end());
-    for (auto& p : regs) { if (!r.empty()) r += ","; r += std::to_string(p.first) + "=" + std::to_string(p.second); }
+    for (auto& p : regs) { if (!r.empty()) r += ","; r += std::to_string(p.first) + "=" + (p.second == (size_t)-1 ? std::string("?") : std::to_string(p.second)); }
     ev("P[f:%s][r:%s][l:0]", f.c_str(), r.c_str());
   }
   else if (m == "throw") { throw ScriptExn(); }
